@@ -22,42 +22,46 @@ Rest(path, nxt) == SubSeq(path, nxt, Len(path))
 OneMatch(pat, path, prefix) == CHOOSE m \in Matches(pat, path, prefix) : TRUE
 Caps(pat, path, prefix) == CapValues(path, OneMatch(pat, path, prefix))
 
-Result(kind, id, caps, data, status) == [kind |-> kind, id |-> id, caps |-> caps, data |-> data, status |-> status]
+\* sdata: what application data resolves to inside the innermost matched scope (seen by that scope's middleware), 0 outside scopes
+Result(kind, id, caps, data, status, sdata) == [kind |-> kind, id |-> id, caps |-> caps, data |-> data, status |-> status, sdata |-> sdata]
 DataOf(node, inherited) == IF node.data # 0 THEN node.data ELSE inherited
 
-RouteRes(r, m, caps, data, dflt) ==
+RouteRes(r, m, caps, data, dflt, sd) ==
   LET ok == {i \in 1..Len(r.routes) : GuardOk(r.routes[i].m, m)} IN
-  IF ok # {} THEN LET i == CHOOSE i \in ok : \A j \in ok : i <= j IN Result("handler", r.routes[i].id, caps, data, 200)
-  ELSE IF r.dflt # 0 THEN Result("default", r.dflt, caps, data, 200)
-  ELSE Result("405", 0, caps, data, 405)
+  IF ok # {} THEN LET i == CHOOSE i \in ok : \A j \in ok : i <= j IN Result("handler", r.routes[i].id, caps, data, 200, sd)
+  ELSE IF r.dflt # 0 THEN Result("default", r.dflt, caps, data, 200, sd)
+  ELSE Result("405", 0, caps, data, 405, sd)
 
-RECURSIVE Walk(_, _, _, _, _, _, _, _, _)
+RECURSIVE Walk(_, _, _, _, _, _, _, _, _, _)
 \* alt = TRUE describes the documented actix behaviour: a nested scope without its own default falls back to the App default
-Walk(children, path, m, hx, caps, data, dflt, app, alt) ==
+Walk(children, path, m, hx, caps, data, dflt, app, alt, sd) ==
   \* first child (registration order) that matches and whose guard accepts
   LET hits == {i \in 1..Len(children) :
                  LET n == children[i] IN
                  NodeGuardsOk(n, m, hx) /\ (IF n.t = "scope" THEN Matches(n.prefix, path, TRUE) # {} ELSE ResHits(n, path) # {})}
-  IN IF hits = {} THEN (IF dflt # 0 THEN Result("default", dflt, caps, data, 200) ELSE Result("404", 0, caps, data, 404))
+  IN IF hits = {} THEN (IF dflt # 0 THEN Result("default", dflt, caps, data, 200, sd) ELSE Result("404", 0, caps, data, 404, sd))
      ELSE LET i == CHOOSE i \in hits : \A j \in hits : i <= j
               n == children[i] IN
-          IF n.t = "res" THEN RouteRes(n, m, caps \o Caps(ResPat(n, path), path, FALSE), DataOf(n, data), dflt)
+          IF n.t = "res" THEN RouteRes(n, m, caps \o Caps(ResPat(n, path), path, FALSE), DataOf(n, data), dflt, sd)
           ELSE LET mm == OneMatch(n.prefix, path, TRUE) IN
                Walk(n.children, Rest(path, mm[1]), m, hx, caps \o CapValues(path, mm), DataOf(n, data),
-                    IF n.dflt # 0 THEN n.dflt ELSE IF alt THEN app ELSE dflt, app, alt)
+                    IF n.dflt # 0 THEN n.dflt ELSE IF alt THEN app ELSE dflt, app, alt, DataOf(n, data))
 
 RouteInit(e) == [tag |-> "ok", table |-> e.table]
 RouteStep(rs, e) ==
   CASE e.ev = "route" ->
-         LET w == Walk(rs.table.children, e.path, e.method, e.hx, <<>>, rs.table.data, rs.table.dflt, rs.table.dflt, FALSE)
-             v == Walk(rs.table.children, e.path, e.method, e.hx, <<>>, rs.table.data, rs.table.dflt, rs.table.dflt, TRUE)
+         LET w == Walk(rs.table.children, e.path, e.method, e.hx, <<>>, rs.table.data, rs.table.dflt, rs.table.dflt, FALSE, 0)
+             v == Walk(rs.table.children, e.path, e.method, e.hx, <<>>, rs.table.data, rs.table.dflt, rs.table.dflt, TRUE, 0)
              known == (w.status # v.status \/ w.id # v.id) /\ e.status = v.status /\ (v.kind \in {"404", "405"} \/ e.id = v.id)
          IN
          IF known THEN Rej("C09/Default/nested-scope-falls-back-to-app-default-not-enclosing-scope", "") ELSE
          E(e.status = w.status,
           E(w.kind \in {"404", "405"} \/ (e.id = w.id),
            E(w.kind \in {"404", "405"} \/ e.caps = w.caps,
-            E(w.kind \in {"404", "405"} \/ e.data = w.data, rs, "C09/Data/not-the-innermost-registration"),
+            E(w.kind \in {"404", "405"} \/ e.data = w.data,
+             \* ... also as seen through a ServiceRequest by the middleware of the innermost matched scope
+             E(w.kind \in {"404", "405"} \/ e.mw = w.sdata, rs, "C09/Data/middleware-does-not-see-the-innermost-registration"),
+             "C09/Data/not-the-innermost-registration"),
             "C09/Params/differ-from-the-patterns-on-the-route"),
            "C09/Handler/not-the-first-registered-match"),
           "C09/Status/" \o w.kind \o "-expected")
